@@ -735,6 +735,9 @@ def run(cr: CheckRun) -> None:
     cr.cov["programs"] = nrec + mach_programs
     cr.cov["traces_validated_against_impl"] = nrec + mach_programs
     cr.cov["evaluations"] = nrec + mach_programs
+    # growth: the call-stack / interrupt-flow tracer itself (spec/trace/CallTrace.tla; drift only)
+    from checks import ext_calltrace
+    ext_calltrace.run(cr)
     cr.cov["distinct_nontrivial"] = ngroups
     cr.cov["explained_by_semantics"] = {"fresh_python_runs": sum(r[4] for r in results), "not_explained (C04 findings)": sum(r[5] for r in results)}
     cr.cov["rule"] = "groups = (core, probe encoding or program, architectural state); runs = histories / splits of a group, each compared with the group's fresh run"
